@@ -67,7 +67,7 @@ var chlen func(specgen.Desc) (int, int)
 func genCase(t *rapid.T) Case {
 	c := Case{Seed: rapid.Uint64().Draw(t, "seed")}
 	bases := specgen.BaseNames()
-	c.Spec = specgen.Gen(t, specgen.Options{Bases: bases, CHLen: chlen})
+	c.Spec = specgen.Gen(t, specgen.Options{Bases: bases, CHLen: chlen, ExactFit: true})
 	c.Observed = rapid.SampledFrom([]string{"", "", "", "", "", "", "", "", "", "log", "trace", "both"}).Draw(t, "observed")
 	c.Dials = rapid.SampledFrom([]int{1, 1, 2, 3}).Draw(t, "dials")
 	// A Transport that was initialised before the first spec dial keeps its connection ID length, so the ClientHello
@@ -275,9 +275,49 @@ func runCase(c Case, u *vf.Unit) *vf.Verdict {
 			u.Class("spec-swapped-on-one-transport")
 		}
 		t0 := w.Router.Now()
+		mark := w.Router.Mark()
 		conn, err := ut.Dial(ctx, sim.ServerAddr, sim.ClientTLS(w.ClientKeys), cconf)
+		if fit := c.Spec.Fit; fit != nil && ut.QUICSpec == spec {
+			if v := checkBudgets(c, spec, i); v != nil {
+				if conn != nil {
+					conn.CloseWithError(0, "")
+				}
+				return v
+			}
+			if fit.Mode == "over" {
+				// "A longer payload cannot be sent and is rejected" (InitialDatagramBudget.MaxFrameBytes): the dial fails
+				// with an error, and none of the ClientHello goes on the wire
+				if err == nil {
+					conn.CloseWithError(0, "")
+					sig := "C02/plan/oversize-accepted"
+					if fit.PNLens[fit.At[0]] > fit.PNLens[0] {
+						// its own root cause: the over-size datagram has a longer packet number than the flight's first packet
+						sig = "C02/plan/oversize-accepted-pn-length"
+					}
+					return &vf.Verdict{Sig: sig, Detail: fmt.Sprintf("dial #%d: datagram %v of the %s plan carries one frame byte more than a %v-byte packet holds (capacity %v with %v-byte packet numbers), but the dial succeeded", i+1, fit.At, fit.Kind, fit.Sizes, fit.Caps, fit.PNLens), Trace: w.Router.Trace(20)}
+				}
+				for _, r := range w.Router.Trace(1 << 30)[mark:] {
+					for _, cl := range r.Class {
+						if r.Dir == "c2s" && cl == "frame:CRYPTO" {
+							return &vf.Verdict{Sig: "C02/plan/oversize-partly-sent", Detail: fmt.Sprintf("dial #%d: the over-size %s plan was rejected (%v), but part of the ClientHello was sent before", i+1, fit.Kind, err), Trace: w.Router.Trace(20)}
+						}
+					}
+				}
+				u.Class("plan:over-rejected:" + fit.Kind)
+				continue
+			}
+		}
 		if err != nil {
 			sig := classifyDialErr(err, i)
+			if sig == "C02/dial/spec-rejected" && c.Spec.Fit != nil && ut.QUICSpec == spec {
+				sig = "C02/plan/exact-fit-rejected" // a plan that fills its pinned packet size (or stays one byte below) was refused
+				for j, l := range c.Spec.Fit.PNLens {
+					if l < c.Spec.Fit.PNLens[0] && (j >= len(c.Spec.Fit.Sizes) || c.Spec.Fit.Sizes[j] > 0) {
+						// its own root cause: a pinned datagram with a shorter packet number than the flight's first packet
+						sig = "C02/plan/exact-fit-rejected-pn-length"
+					}
+				}
+			}
 			if sig == "C02/dial/failed" {
 				// only the network may justify a failure: a dead stretch of at least a third of the handshake timeout
 				if dead := w.Router.DeadStretch(w.Router.Now()); dead >= 10*time.Second/3 {
@@ -336,6 +376,15 @@ func runCase(c Case, u *vf.Unit) *vf.Verdict {
 	ln.Close()
 	cancel()
 	<-srvDone
+	if fit := c.Spec.Fit; fit != nil {
+		if fit.Mode == "over" {
+			u.Class("plan:over")
+			return nil
+		}
+		m := map[string]string{"exact": "plan:exact-fit", "below": "plan:one-below"}[fit.Mode]
+		u.Class(m)
+		u.Class(m + ":" + fit.Kind)
+	}
 	u.Class("ok")
 	u.Class("base:" + c.Spec.Base)
 	if c.Spec.Builder != nil {
@@ -354,6 +403,35 @@ func runCase(c Case, u *vf.Unit) *vf.Verdict {
 		u.NonTrivial(fmt.Sprintf("%+v", c.Spec), c.Dials, strings.Join(w.Router.AppliedFaults(), ","))
 		if u.WantSample() {
 			u.Sample(c)
+		}
+	}
+	return nil
+}
+
+// checkBudgets: a caller-written flight builder is told, per datagram, "the largest frame payload this datagram can
+// carry: its QUIC packet size (Plan.PacketSize ...) minus the long header and the AEAD tag"
+// (InitialDatagramBudget.MaxFrameBytes). For the datagrams with a pinned size that number is known from the wire
+// format alone (specgen computes it from the description).
+func checkBudgets(c Case, spec *quic.QUICSpec, dial int) *vf.Verdict {
+	fit := c.Spec.Fit
+	if fit.Kind != "budget" {
+		return nil
+	}
+	for _, offered := range specgen.OfferedBudgets(spec) {
+		for i, b := range offered {
+			if i >= len(fit.Sizes) || fit.Sizes[i] == 0 {
+				continue
+			}
+			if b.PacketSize != fit.Sizes[i] {
+				return vf.Bad("C02/plan/budget-differs", "dial #%d: budget %d names packet size %d, the plan pins %d", dial+1, i, b.PacketSize, fit.Sizes[i])
+			}
+			if b.MaxFrameBytes != fit.Caps[i] {
+				sig := "C02/plan/budget-differs"
+				if fit.PNLens[i] != fit.PNLens[0] && b.MaxFrameBytes == fit.Caps[i]+fit.PNLens[i]-fit.PNLens[0] {
+					sig = "C02/plan/budget-ignores-pn-length"
+				}
+				return vf.Bad(sig, "dial #%d: the flight builder is offered MaxFrameBytes=%d for datagram %d (PacketSize %d), but a %d-byte Initial packet with this spec's header (%d-byte packet number) carries %d frame bytes", dial+1, b.MaxFrameBytes, i, fit.Sizes[i], fit.Sizes[i], fit.PNLens[i], fit.Caps[i])
+			}
 		}
 	}
 	return nil
